@@ -18,6 +18,11 @@ type Provision struct {
 	SD      string `json:"sd"`         // 6 hex digits or ""
 	GnbGTP  string `json:"gnb_gtp_ip"` // dotted IPv4 the gNB announces for its N3 endpoint
 	AMFName string `json:"amf_name"`
+	// ServingMCC/ServingMNC: when set, the serving network (the serving network name of 5G AKA, TS 33.501 6.1.1.4)
+	// is this one, while MCC/MNC stay the home network of the subscriber (SUCI) - which the emulator also
+	// announces as its own PLMN, since it takes that from the SUCI. Same number of MNC digits as MNC.
+	ServingMCC string `json:"serving_mcc,omitempty"`
+	ServingMNC string `json:"serving_mnc,omitempty"`
 }
 
 // UEChoice: everything the network side decides for the k-th UE that registers.
@@ -58,6 +63,11 @@ type UEChoice struct {
 	// UEs — are answered first. The emulator waits for that message, so for the unchanged program this only makes
 	// the conversation longer; nothing else in the conversation depends on time.
 	CUCDelayMs int `json:"cuc_delay_ms,omitempty"`
+	// EncPrio / IntPrio: the AMF's own priority order of the NAS ciphering (0..2) and integrity (1..2) algorithms; it
+	// selects the first one in its list that the UE announced in its security capability (TS 33.501 6.7.1). Empty:
+	// NEA0, NEA2, NEA1 and NIA2, NIA1.
+	EncPrio []int `json:"enc_prio,omitempty"`
+	IntPrio []int `json:"int_prio,omitempty"`
 }
 
 // Optional downlink information elements, placed where TS 38.413 allows them.
